@@ -36,6 +36,13 @@ impl<const T: u8> Agent for Probe<T> {
         let draw = rng.next_u64();
         let orders = env.get_orders().len();
         self.log.borrow_mut().push(Rec { tag: self.tag, ty: T, draw, orders });
+        // members may act on the shared environment in any way, e.g. halt / resume trading in the middle of a set's update
+        // (decided by the draw, so the derived and the hand-written sequence do the same)
+        if T == 3 && draw % 4 == 0 {
+            env.disable_trading();
+        } else if T == 2 && draw % 4 == 0 {
+            env.enable_trading();
+        }
         let _ = env.place_order(Side::Bid, 1, self.tag, Some(100 + self.tag));
     }
 }
@@ -54,6 +61,11 @@ impl<const T: u8> MarketAgent for MProbe<T> {
         let draw = rng.next_u64();
         let orders = env.get_orders(0).len();
         self.log.borrow_mut().push(Rec { tag: self.tag, ty: T, draw, orders });
+        if T == 3 && draw % 4 == 0 {
+            env.disable_trading();
+        } else if T == 2 && draw % 4 == 0 {
+            env.enable_trading();
+        }
         let _ = env.place_order(0, Side::Bid, 1, self.tag, Some(100 + self.tag));
     }
 }
